@@ -221,3 +221,96 @@ def check_dwt_grad(cfg, sizes, rnd):
             return False, '%s mode=%s needs=%s shapes=%s L=%d: gradient of input %d is not J^T g (%s)' % (
                 cls, mode, needs, shapes, L, k, det)
     return True, '%s mode=%s needs=%s shapes=%s: %s' % (cls, mode, needs, shapes, det)
+
+
+@register('slices')
+def check_slices(cfg, sizes, rnd):
+    """linearity and slice-wise action of the real modules"""
+    from pytorch_wavelets.dwt.transform1d import DWT1DForward, DWT1DInverse
+    from pytorch_wavelets.dwt.transform2d import DWTForward, DWTInverse
+    fn, mode = cfg['fn'], cfg['mode']
+    if fn not in ('DWT1DForward', 'DWTForward', 'DWT1DInverse', 'DWTInverse'):
+        fn = {'afb1d': 'DWT1DForward', 'AFB1D': 'DWT1DForward', 'AFB2D': 'DWTForward', 'sfb1d': 'DWT1DInverse',
+              'SFB1D': 'DWT1DInverse', 'SFB2D': 'DWTInverse'}.get(fn, 'DWTForward')
+    w = _wave(sizes.get('L2', 2))
+    Bn, C = _sz(sizes, 'B', 2, 1, 3), _sz(sizes, 'C', 2, 1, 3)
+    N = _sz(sizes, 'N', 6, 2, 16)
+    one_d = '1D' in fn
+    rs = np.random.RandomState(rnd.randint(0, 10**6))
+    shp = (Bn, C, N) if one_d else (Bn, C, N, N + 1)
+    cls = {'DWT1DForward': DWT1DForward, 'DWTForward': DWTForward, 'DWT1DInverse': DWT1DInverse, 'DWTInverse': DWTInverse}[fn]
+    fwd = 'Forward' in fn
+    mod = build64(cls, J=2, wave=w, mode=mode) if fwd else build64(cls, wave=w, mode=mode)
+    ana = build64(DWT1DForward if one_d else DWTForward, J=2, wave=w, mode=mode)
+
+    def flat(o):
+        if isinstance(o, tuple):
+            return torch.cat([o[0].reshape(o[0].shape[0], o[0].shape[1], -1)] + [h.reshape(h.shape[0], h.shape[1], -1) for h in o[1]], dim=2)
+        return o.reshape(o.shape[0], o.shape[1], -1)
+    try:
+        if fwd:
+            T = lambda x: flat(mod(x))
+            x, y = torch.tensor(rs.randn(*shp)), torch.tensor(rs.randn(*shp))
+            comb = lambda a, b: a * x + b * y
+            Tx, Ty, Tc, T0 = T(x), T(y), T(1.5 * x - 0.25 * y), T(torch.zeros(shp, dtype=torch.float64))
+        else:
+            px, py = ana(torch.tensor(rs.randn(*shp))), ana(torch.tensor(rs.randn(*shp)))
+            T = lambda p: flat(mod(p))
+            lin = lambda a, p, b, q: (a * p[0] + b * q[0], [a * u + b * v for u, v in zip(p[1], q[1])])
+            Tx, Ty, Tc = T(px), T(py), T(lin(1.5, px, -0.25, py))
+            T0 = T(lin(0.0, px, 0.0, py))
+    except Exception as e:
+        if mode == 'reflect':
+            return True, 'raises as permitted (reflect)'
+        return False, 'raises %s: %s' % (type(e).__name__, e)
+    ok, det = _close(Tc.numpy(), (1.5 * Tx - 0.25 * Ty).numpy())
+    if not ok:
+        return False, '%s %s: not linear (%s)' % (fn, mode, det)
+    if float(T0.abs().max()) != 0.0:
+        return False, '%s %s: T(0) != 0' % (fn, mode)
+    if fwd:
+        # slice (n, c) of the output must equal the transform of slice (n, c) alone
+        n0, c0 = Bn - 1, C - 1
+        one = flat(mod(x[n0:n0 + 1, c0:c0 + 1]))
+        ok, det = _close(Tx[n0:n0 + 1, c0:c0 + 1].numpy(), one.numpy())
+        if not ok:
+            return False, '%s %s: slice (%d,%d) is not the transform of that slice alone (%s)' % (fn, mode, n0, c0, det)
+    return True, '%s %s shape %s ok' % (fn, mode, shp)
+
+
+@register('nonsep')
+def check_nonsep(cfg, sizes, rnd):
+    """the library's non-separable bank against its separable bank (code vs code)"""
+    from pytorch_wavelets.dwt import lowlevel
+    mode, nf, kind = cfg['mode'], cfg.get('nf', 4), cfg.get('kind', 'afb')
+    wc = _wave(sizes.get('L2', sizes.get('Lc2', 2)))
+    wr = _wave(sizes.get('Lr2', 1)) if nf == 4 else wc
+    H, W = _sz(sizes, 'H', 6, 1, 20), _sz(sizes, 'W', 5, 1, 20)
+    C = _sz(sizes, 'C', 2, 1, 3)
+    rs = np.random.RandomState(rnd.randint(0, 10**6))
+    old = torch.get_default_dtype()
+    torch.set_default_dtype(torch.float64)
+    try:
+        if kind == 'afb':
+            fl = [wc.dec_lo, wc.dec_hi] + ([wr.dec_lo, wr.dec_hi] if nf == 4 else [])
+            x = torch.tensor(rs.randn(1, C, H, W))
+            try:
+                a = lowlevel.afb2d_nonsep(x, fl, mode)
+            except Exception as e:
+                try:
+                    lowlevel.afb2d(x, fl, mode)
+                except Exception:
+                    return True, 'both raise'
+                return False, 'afb2d_nonsep raises %s: %s but afb2d returns' % (type(e).__name__, e)
+            b = lowlevel.afb2d(x, fl, mode)
+        else:
+            fl = [wc.rec_lo, wc.rec_hi] + ([wr.rec_lo, wr.rec_hi] if nf == 4 else [])
+            co = torch.tensor(rs.randn(1, C, 4, H, W))
+            if mode not in ('per', 'periodization') and (2 * H - wc.dec_len + 2 < 1 or 2 * W - wr.dec_len + 2 < 1):
+                return True, 'outside precondition'
+            a = lowlevel.sfb2d_nonsep(co, fl, mode)
+            b = lowlevel.sfb2d(co[:, :, 0], co[:, :, 1], co[:, :, 2], co[:, :, 3], fl, mode)
+    finally:
+        torch.set_default_dtype(old)
+    ok, det = _close(a.numpy(), b.numpy())
+    return ok, '%s2d_nonsep vs %s2d mode=%s nf=%d HxW=%dx%d L=%d,%d: %s' % (kind, kind, mode, nf, H, W, wc.dec_len, wr.dec_len, det)
